@@ -19,7 +19,7 @@ RULE = ("case = (format from the 18 writable extensions, 1-6 frames, atom count 
         "(struct for TRR / DCD / XTC headers, netCDF4 and PyTables directly, fixed-column parsers for mdcrd / xyz / lammpstrj / gro / pdb / "
         "rst7) must extract the same numbers in the format's native units; inputs a format cannot represent must be refused, never "
         "silently altered; non-trivial = >= 2 frames with a cell and (triclinic or varying cell or |x| > 100 nm or 9/10 atoms)")
-QUICK = {"examples": 220, "shards": 12, "budget_s": 110}
+QUICK = {"examples": 220, "shards": 12, "budget_s": 160}
 THOROUGH = {"examples": 6000, "shards": 16, "budget_s": 1700}
 ASSUMPTIONS = ["compressed XTC coordinates and DTR frames are read only through mdtraj (no independent xdr3dfcoord / DTR decoder); their headers "
                "(XTC) are parsed independently",
